@@ -796,6 +796,21 @@ def body_complement(case, ctx):
         ctx.small("inversion preserves the circle (centre)", abs(ic - c) / tol, 1.0)
         ctx.small("inversion preserves the circle (radius)", (ir - r) / tol, 1.0)
         ctx.check(iout != out, "inversion exchanges the two sides", c=cj(c), r=r, out=out)
+    # the coordinate change behind it: the three boundary points go to {0, 1, infinity}
+    bp = D.boundary_points()
+    S = bp.to_standard_triple()
+    ctx.check(S.shape == shape, "to_standard_triple() shape", got=S.shape, want=shape)
+    Sm = np.asarray(S.matrix).reshape((-1, 2, 2))             # row matrices: x -> x M
+    img = np.einsum("nki,nij->nkj", flat[:, :3, :], Sm)
+    std = np.array([[1.0, 0.0], [0.0, 1.0], [1.0, 1.0]], dtype=complex)
+    for i in range(len(disks)):
+        sep = min(float(O.chordal(flat[i, a], flat[i, b])) for a, b in ((0, 1), (0, 2), (1, 2)))
+        tol = 1e-9 + 1e-13 * (2.0 / sep) ** 2
+        hit = [int(np.argmin([float(O.chordal(img[i, k], t)) for t in std])) for k in range(3)]
+        ctx.check(sorted(hit) == [0, 1, 2], "to_standard_triple sends the triple onto "
+                  "{0, infinity, 1}", images=img[i], nearest=hit)
+        ctx.small("to_standard_triple: distance of the images from {0, infinity, 1}",
+                  max(float(O.chordal(img[i, k], std[hit[k]])) for k in range(3)), tol)
 
 
 # ---------------------------------------------------------------------------
